@@ -203,6 +203,41 @@ def domLine (s gvrH : String) (targets : List String) : String :=
     "ok " ++ " ".intercalate m ++ " | ok " ++ " ".intercalate sp
   | _, _, _ => bad
 
+/-- sentinel constants of `specapi` lines: (group, key) -/
+def sentinels : List (String × String) := [
+  ("Config", "ALTAIR_FORK_EPOCH"), ("Config", "GENESIS_FORK_VERSION"), ("Config", "SECONDS_PER_SLOT"),
+  ("Phase0Preset", "MAX_COMMITTEES_PER_SLOT"), ("AltairPreset", "SYNC_COMMITTEE_SIZE"),
+  ("BellatrixPreset", "MAX_EXTRA_DATA_BYTES"), ("CapellaPreset", "MAX_WITHDRAWALS_PER_PAYLOAD"),
+  ("DenebPreset", "MAX_BLOB_COMMITMENTS_PER_BLOCK"), ("ElectraPreset", "PENDING_CONSOLIDATIONS_LIMIT")]
+
+def groupsInOrder : List String :=
+  ["Config", "Phase0Preset", "AltairPreset", "BellatrixPreset", "CapellaPreset", "DenebPreset", "ElectraPreset"]
+
+/-- the sentinels of a spec assembled from the named built-in components; tables: name ↦ constants table -/
+def sentinelDump (tbl : String → Option (List (String × String × Val))) (names : List String) : Option String := do
+  let vals ← sentinels.mapM (fun (g, k) => do
+    let i ← groupsInOrder.idxOf? g
+    let nm ← names[i]?
+    let t ← tbl nm
+    let v ← Constants.lookupG t g k
+    pure v.render)
+  pure (",".intercalate vals ++ ",engine=nil")
+
+/-- `specapi names legacy mask`: whatever a caller does to the spec a public constructor handed out, the built-in
+configurations and every newly constructed spec are still made of the published constants, and the
+constructor hands out private copies -/
+def specApiLine (namesTok legacy mask : String) : String :=
+  let names := namesTok.splitOn ","
+  if names.length != 7 || mask.toNat?.isNone then "bad-op" else
+  if !(names.all (fun n => n == "mainnet" || n == "minimal")) || !(legacy == "none" || legacy == "mainnet" || legacy == "minimal") then "err | err" else
+  let answer (tbl : String → Option (List (String × String × Val))) : String :=
+    match sentinelDump tbl names, sentinelDump tbl (List.replicate 7 "mainnet"), sentinelDump tbl (List.replicate 7 "minimal") with
+    | some got, some mn, some mi => s!"ok copies=distinct got={got} mainnet={mn} minimal={mi} rebuilt={got}"
+    | _, _, _ => "no-table"
+  let genT (n : String) := if n == "mainnet" then some Gen.Configs.yamlMainnet else if n == "minimal" then some Gen.Configs.yamlMinimal else none
+  let specT (n : String) := if n == "mainnet" then some Constants.mainnet else if n == "minimal" then some Constants.minimal else none
+  answer genT ++ " | " ++ answer specT
+
 def c14Line (line : String) : String :=
   let toks := tokens line
   let bad := "bad-op"
@@ -254,6 +289,7 @@ def c14Line (line : String) : String :=
   | "chain" :: s :: targets => chainLine "chain" s targets
   | "chaing" :: s :: targets => chainLine "chaing" s targets
   | "dom" :: s :: gvr :: targets => domLine s gvr targets
+  | ["specapi", names, legacy, mask] => specApiLine names legacy mask
   | ["env", fork, _seed] =>
     match Fork.ofName? fork with
     | some f =>
